@@ -1,8 +1,11 @@
 /// Verification harness, compiled into the crate under test (cfg(zinoma_verif)).
 pub mod verif {
+    pub mod bb;
+    pub mod bb_graph;
     pub mod cli;
     pub mod graph;
     pub mod hooks;
+    pub mod prop;
     pub mod report;
     pub mod sim;
     pub mod sim_oracles;
